@@ -110,6 +110,9 @@ func init() {
 			// required one (no concrete implementation otherwise available)
 			{ID: "c0", In: []Label{{"", 2, ""}}, Out: []Label{{"", TI2, ""}}},
 			{ID: "c0", In: []Label{{"a", 2, ""}}, Out: []Label{{"a", TI2, ""}}},
+			// converters whose interface-typed result is a nil interface value
+			{ID: "c0", In: []Label{{"", 2, ""}}, Out: []Label{{"", TI, ""}}, NilIface: true, HasErr: true},
+			{ID: "c0", In: []Label{{"", 2, ""}}, Out: []Label{{"", TI2, ""}}, NilIface: true},
 		}
 		for _, p := range params {
 			for _, in := range subsetsUpTo(len(ins), 2) {
